@@ -22,6 +22,7 @@ import (
 	"sort"
 	"strings"
 	"sync"
+	"sync/atomic"
 	"testing"
 	"time"
 
@@ -39,18 +40,19 @@ type rSecret struct {
 // rService is a scripted StoreClient. It logs every call with the fake time at
 // which it was made, and fails calls according to a per-name script.
 type rService struct {
-	mu       sync.Mutex
-	now      func() time.Time
-	secrets  map[string]*rSecret
-	fail     map[string][]string // per name: outcome of the next calls ("err", "deadline", "notfound")
-	dead     bool                // every call fails
-	calls    []string            // "Get(a)@1000000", in call order
-	served   map[string]map[string]bool
-	opCalls  int
-	cancelAt int // cancel the operation's context during this call of the current operation (1-based; 0 = never)
-	cancel   context.CancelFunc
-	runaway  bool
-	hook     func() // runs once, on the caller's goroutine, while the next request is in flight
+	mu        sync.Mutex
+	now       func() time.Time
+	secrets   map[string]*rSecret
+	fail      map[string][]string // per name: outcome of the next calls ("err", "deadline", "notfound")
+	dead      bool                // every call fails
+	calls     []string            // "Get(a)@1000000", in call order
+	served    map[string]map[string]bool
+	opCalls   int
+	cancelAt  int // cancel the operation's context during this call of the current operation (1-based; 0 = never)
+	cancel    context.CancelFunc
+	runaway   bool
+	realTimes []time.Time // real time of each call (only used by the deep back-off check)
+	hook      func()      // runs once, on the caller's goroutine, while the next request is in flight
 }
 
 const rRunawayCalls = 40
@@ -108,6 +110,7 @@ func (v *rService) answer(ctx context.Context, what, name string, old api.Secret
 	defer v.mu.Unlock()
 	v.opCalls++
 	v.calls = append(v.calls, fmt.Sprintf("%s@%d", what, v.now().Unix()))
+	v.realTimes = append(v.realTimes, time.Now())
 	if v.opCalls > rRunawayCalls {
 		// A retry loop that does not end: record it and let the loop finish by
 		// serving a value whatever the script says.
@@ -292,14 +295,22 @@ type rHarness struct {
 	rawDoc  string               // its text
 
 	pinnedInFlight string
-	errUnknown     bool // polls run by the background task: their error is only logged
+	flushWhen      string
+	limit          time.Duration // real-time limit for one call (default 3s)
+	errUnknown     bool          // polls run by the background task: their error is only logged
+	logMu          sync.Mutex
 	logs           []string
 }
 
 func (h *rHarness) now() time.Time { return h.clock }
 
+// logf receives the store's log lines (also from its background task).
 func (h *rHarness) logf(format string, a ...any) {
-	h.logs = append(h.logs, fmt.Sprintf(format, a...))
+	h.logMu.Lock()
+	defer h.logMu.Unlock()
+	if len(h.logs) < 200 {
+		h.logs = append(h.logs, fmt.Sprintf(format, a...))
+	}
 }
 
 func (h *rHarness) note(format string, a ...any) {
@@ -354,34 +365,64 @@ func realString(s *Store) (out string) {
 	return sb.String()
 }
 
-func (h *rHarness) bad(format string, a ...any) {
-	h.t.Helper()
+func (h *rHarness) report(problem string) string {
 	cache := "(none)"
 	if h.cache != nil {
 		cache = h.cache.mem.String()
 	}
-	h.t.Fatalf("REPLAY-COUNTEREXAMPLE\nhistory:\n  %s\nproblem: %s\nmodel state: %s\nreal state:  %s\ncache: %s",
-		strings.Join(h.hist, "\n  "), fmt.Sprintf(format, a...), h.modelString(), realString(h.st), cache)
+	return fmt.Sprintf("REPLAY-COUNTEREXAMPLE\nhistory:\n  %s\nproblem: %s\nmodel state: %s\nreal state:  %s\ncache: %s",
+		strings.Join(h.hist, "\n  "), problem, h.modelString(), realString(h.st), cache)
+}
+
+func (h *rHarness) bad(format string, a ...any) {
+	h.t.Helper()
+	h.t.Fatalf("%s", h.report(fmt.Sprintf(format, a...)))
+}
+
+// rWatch is the call into the code under test that is currently running. A
+// watchdog goroutine reports a call that does not return (the test goroutine is
+// stuck in it, so the report is printed directly and the process exits).
+type rWatch struct {
+	h     *rHarness
+	start time.Time
+	limit time.Duration
+}
+
+var rWatching atomic.Pointer[rWatch]
+
+func startWatchdog() (stop func()) {
+	done := make(chan struct{})
+	go func() {
+		tk := time.NewTicker(200 * time.Millisecond)
+		defer tk.Stop()
+		for {
+			select {
+			case <-done:
+				return
+			case <-tk.C:
+				if w := rWatching.Load(); w != nil && time.Since(w.start) > w.limit {
+					fmt.Printf("--- FAIL: TestVerifReplaySetec\n%s\n", w.h.report(fmt.Sprintf("the call did not return within %v of real time (it waits for something that never happens: a lock held across a request, or an unbounded retry)", w.limit)))
+					os.Exit(1)
+				}
+			}
+		}
+	}()
+	return func() { close(done) }
 }
 
 // guard runs one call into the code under test. A panic is returned (the caller
-// decides whether it was documented); a call that does not return is reported.
+// decides whether it was documented); a call that does not return is reported
+// by the watchdog.
 func (h *rHarness) guard(f func()) (panicked any) {
-	h.t.Helper()
-	done := make(chan any, 1)
-	go func() {
-		defer func() { done <- recover() }()
-		f()
-	}()
-	tm := time.NewTimer(3 * time.Second)
-	defer tm.Stop()
-	select {
-	case p := <-done:
-		return p
-	case <-tm.C:
-		h.bad("the call did not return within 3s of real time (it waits for something that never happens: a lock held across a request, or an unbounded retry)")
-		return nil
+	limit := h.limit
+	if limit == 0 {
+		limit = 3 * time.Second
 	}
+	rWatching.Store(&rWatch{h: h, start: time.Now(), limit: limit})
+	defer rWatching.Store(nil)
+	defer func() { panicked = recover() }()
+	f()
+	return nil
 }
 
 // must is guard for calls that may never panic.
@@ -391,7 +432,7 @@ func (h *rHarness) must(f func()) {
 		h.bad("panic: %v", p)
 	}
 	if h.svc != nil && h.svc.runaway {
-		h.bad("more than %d requests were sent to the service within one call (retry loop that does not end)", rRunawayCalls)
+		h.bad("more than %d requests were sent to the service within one call: a retry loop that does not end (if the call's context has ended, it must return promptly instead of retrying)", rRunawayCalls)
 	}
 }
 
@@ -467,8 +508,9 @@ func (h *rHarness) checkState(changed bool, failedWrites int) {
 		if _, ok := real[n]; !ok {
 			h.bad("the store no longer holds %q (declared=%v handle=%v); the statement does not allow dropping it", n, e.declared, e.handle)
 		}
-		if e.handle != hasHandle[n] {
-			h.bad("handle bookkeeping for %q: store has handle=%v, model %v", n, hasHandle[n], e.handle)
+		if !e.declared && e.handle != hasHandle[n] {
+			// for an undeclared secret this decides whether it may expire (C19)
+			h.bad("the store records handle-handed-out=%v for the undeclared secret %q; in this history it is %v", hasHandle[n], n, e.handle)
 		}
 	}
 	if h.cache == nil {
@@ -488,7 +530,11 @@ func (h *rHarness) checkState(changed bool, failedWrites int) {
 	switch {
 	case changed && failedWrites == 0:
 		if gs != ws {
-			h.bad("after an install the cache document must hold exactly the store's entries: got %s want %s", gs, ws)
+			when := "after an install"
+			if h.flushWhen != "" {
+				when = h.flushWhen
+			}
+			h.bad("%s the cache document must hold exactly the store's entries: got %s want %s", when, gs, ws)
 		}
 	default:
 		if gs != ws && gs != ps {
@@ -541,7 +587,7 @@ func (h *rHarness) start(what string) {
 		cfg.Cache = h.cache
 		initial = h.cache.mem.String()
 	}
-	h.note("%s NewStore(Secrets=%q AllowLookup=%v ExpiryAge=%v cache=%q) at t=%d", what, h.declared, h.lookup, h.expiry, initial, h.clock.Unix())
+	h.note("%s NewStore(Secrets=%q AllowLookup=%v ExpiryAge=%v cache=`%s`) at t=%d", what, h.declared, h.lookup, h.expiry, initial, h.clock.Unix())
 	h.m = map[string]*mEntry{}
 	h.handles = map[string]Secret{}
 	h.upd = nil
@@ -1211,7 +1257,7 @@ func (h *rHarness) opRestart(replace *string) {
 		}
 	}
 	if h.cache != nil && replace != nil {
-		h.note("the cache contents are replaced by %q", *replace)
+		h.note("the cache contents are replaced by `%s`", *replace)
 		h.cache.mem = NewMemCache(*replace)
 	}
 	h.svc.mu.Lock()
@@ -1259,7 +1305,7 @@ func weightsFor(focus string) rWeights {
 	case has("hasExpired", "snapshotActive", "lastAccessTime"):
 		w.advance, w.refresh, w.lookup, w.restart = 14, 16, 8, 5
 	case has("flushCache", "MemCache", "loadCache", "isActiveSetValid", "FileCache"):
-		w.failCache, w.restart, w.corrupt, w.probe, w.refresh = 6, 6, 4, 6, 12
+		w.failCache, w.restart, w.corrupt, w.probe, w.refresh = 6, 4, 3, 3, 12
 	case has("poll", "applyUpdates", "Refresh"):
 		w.refresh, w.change, w.fail, w.advance, w.failCache = 20, 16, 6, 8, 4
 	case has("NewStore", "initializeActive", "secretNames"):
@@ -1604,7 +1650,7 @@ func runConstruction(t *testing.T, rng *rand.Rand) {
 		cfg.Client = &FileClient{path: "(replay)", db: fileDB}
 	}
 	h.note("service holds %s; scripted failures before success: %v", svcString(h.svc), fails)
-	h.note("NewStore(client=%s Secrets=%q struct-tagged=%v AllowLookup=%v cache=%q context=%s)", client, secrets, sa != nil, h.lookup, initial, ctxKind)
+	h.note("NewStore(client=%s Secrets=%q struct-tagged=%v AllowLookup=%v cache=`%s` context=%s)", client, secrets, sa != nil, h.lookup, initial, ctxKind)
 
 	// ---- expected outcome ----
 	h.m = map[string]*mEntry{}
@@ -1942,6 +1988,7 @@ func runFields(t *testing.T, rng *rand.Rand) {
 		return false
 	}
 	wantErr := false
+	applied := false
 	populated := map[string]bool{}
 	if viaConfig {
 		h.expectCalls(mark, wantCalls...)
@@ -2019,7 +2066,7 @@ func runFields(t *testing.T, rng *rand.Rand) {
 		if (err != nil) != wantErr {
 			h.bad("Apply returned err=%v; the model expects an error: %v (a field whose secret is unknown, unavailable or undecodable must be reported, and only that)", err, wantErr)
 		}
-		h.checkState(installed, 0)
+		applied = installed
 	}
 	// field contents
 	for _, f := range rFieldTags {
@@ -2051,6 +2098,7 @@ func runFields(t *testing.T, rng *rand.Rand) {
 	if v.Untagged != "keep" || v.Other != 7 {
 		h.bad("untagged fields were modified")
 	}
+	h.checkState(applied, 0)
 	// a []byte field is a private copy
 	if populated["fb"] && len(v.B) > 0 {
 		for i := range v.B {
@@ -2163,7 +2211,9 @@ func runPoller(t *testing.T, rng *rand.Rand, dir string) {
 	if !tk.stopped {
 		h.bad("Close did not stop the poll ticker")
 	}
+	h.flushWhen = "after the background task has shut down"
 	h.checkState(true, h.cache.failed-failed)
+	h.flushWhen = ""
 	h.opProbe(dir)
 }
 
@@ -2329,27 +2379,312 @@ func runOverlap(t *testing.T) {
 	}
 }
 
+// ---- clients (C09) --------------------------------------------------------------------------
+
+// runClients checks the network client against an in-process handler that
+// implements the conditional-get protocol or answers with a scripted status,
+// and the file-backed client against the file it was given.
+func runClients(t *testing.T, rng *rand.Rand, dir string) {
+	h := &rHarness{t: t}
+	type sv struct {
+		ver api.SecretVersion
+		val string
+	}
+	svc := map[string]sv{"a": {3, "val-a"}, "b": {1, ""}, "big": {4000000000, "val-big"}}
+	status := 0
+	var reqs []string
+	var lastReq api.GetRequest
+	var hdrProblem string
+	handler := http.HandlerFunc(func(w http.ResponseWriter, r *http.Request) {
+		var req api.GetRequest
+		json.NewDecoder(r.Body).Decode(&req)
+		lastReq = req
+		reqs = append(reqs, fmt.Sprintf("%s %s {Name:%q Version:%d UpdateIfChanged:%v}", r.Method, r.URL.Path, req.Name, req.Version, req.UpdateIfChanged))
+		if r.Header.Get("Content-Type") != "application/json" || r.Header.Get("Sec-X-Tailscale-No-Browsers") != "setec" {
+			hdrProblem = fmt.Sprintf("request headers Content-Type=%q Sec-X-Tailscale-No-Browsers=%q", r.Header.Get("Content-Type"), r.Header.Get("Sec-X-Tailscale-No-Browsers"))
+		}
+		if status != 0 && status != 200 {
+			http.Error(w, "scripted status", status)
+			return
+		}
+		s, ok := svc[req.Name]
+		switch {
+		case !ok:
+			http.Error(w, "not found", http.StatusNotFound)
+		case req.UpdateIfChanged && req.Version != 0 && req.Version == s.ver:
+			w.WriteHeader(http.StatusNotModified)
+		case !req.UpdateIfChanged && req.Version != 0 && req.Version != s.ver:
+			http.Error(w, "not found", http.StatusNotFound)
+		default:
+			json.NewEncoder(w).Encode(api.SecretValue{Value: []byte(s.val), Version: s.ver})
+		}
+	})
+	c := Client{Server: "http://replay.invalid/", DoHTTP: func(r *http.Request) (*http.Response, error) {
+		rec := httptest.NewRecorder()
+		handler.ServeHTTP(rec, r)
+		return rec.Result(), nil
+	}}
+	ctx := context.Background()
+	sentinels := map[int]error{404: api.ErrNotFound, 403: api.ErrAccessDenied, 304: api.ErrValueNotChanged}
+	isSentinel := func(err error) bool {
+		return errors.Is(err, api.ErrNotFound) || errors.Is(err, api.ErrAccessDenied) || errors.Is(err, api.ErrValueNotChanged)
+	}
+	// do: status mapping
+	for _, code := range []int{200, 404, 403, 304, 201, 202, 204, 400, 401, 402, 405, 409, 410, 412, 418, 429, 500, 501, 502, 503, 504} {
+		for _, via := range []string{"do", "Get", "GetIfChanged"} {
+			status, reqs = code, nil
+			h.hist = []string{fmt.Sprintf("the server answers every request with HTTP status %d", code), fmt.Sprintf("%s for secret \"a\" (old version 2 where applicable)", via)}
+			var got *api.SecretValue
+			var err error
+			h.must(func() {
+				switch via {
+				case "do":
+					got, err = do[*api.SecretValue](ctx, c, "/api/get", api.GetRequest{Name: "a"})
+				case "Get":
+					got, err = c.Get(ctx, "a")
+				default:
+					got, err = c.GetIfChanged(ctx, "a", 2)
+				}
+			})
+			if len(reqs) != 1 {
+				h.bad("%d HTTP requests were sent, want exactly one: %v", len(reqs), reqs)
+			}
+			if hdrProblem != "" {
+				h.bad("%s", hdrProblem)
+			}
+			switch want := sentinels[code]; {
+			case code == 200:
+				if err != nil || got == nil || string(got.Value) != "val-a" || got.Version != 3 {
+					h.bad("status 200 with a value: got %+v err=%v, want v3 \"val-a\"", got, err)
+				}
+			case want != nil:
+				if err != want {
+					h.bad("HTTP status %d must be reported as %q; got %v", code, want, err)
+				}
+			default:
+				if err == nil {
+					h.bad("HTTP status %d was reported as success (value %+v)", code, got)
+				}
+				if isSentinel(err) {
+					h.bad("HTTP status %d was reported as the sentinel %q, which is reserved for 404/403/304", code, err)
+				}
+			}
+		}
+	}
+	// Client.GetIfChanged / Get against the protocol
+	status = 0
+	for _, name := range []string{"a", "b", "big", "missing"} {
+		s, exists := svc[name]
+		olds := []api.SecretVersion{0, 1, 2, 3, 4, 4000000000, 4294967295}
+		for _, old := range olds {
+			reqs = nil
+			h.hist = []string{fmt.Sprintf("the server holds %q at active version %d (exists=%v)", name, s.ver, exists), fmt.Sprintf("Client.GetIfChanged(%q, %d)", name, old)}
+			var got *api.SecretValue
+			var err error
+			h.must(func() { got, err = c.GetIfChanged(ctx, name, old) })
+			if len(reqs) != 1 {
+				h.bad("%d HTTP requests were sent, want exactly one: %v", len(reqs), reqs)
+			}
+			if lastReq.Name != name || !strings.HasSuffix(reqs[0], "}") || !strings.HasPrefix(reqs[0], "POST /api/get ") {
+				h.bad("the request sent was %s", reqs[0])
+			}
+			if old != 0 && (lastReq.Version != old || !lastReq.UpdateIfChanged) {
+				h.bad("a conditional get must carry the caller's version and the UpdateIfChanged flag; sent %s", reqs[0])
+			}
+			if old == 0 && lastReq.Version != 0 {
+				h.bad("with old version 0 the call must behave as Get; sent %s", reqs[0])
+			}
+			switch {
+			case !exists:
+				if err != api.ErrNotFound || got != nil {
+					h.bad("got %+v err=%v, want ErrNotFound", got, err)
+				}
+			case old != 0 && old == s.ver:
+				if err != api.ErrValueNotChanged || got != nil {
+					h.bad("the active version equals the caller's: got %+v err=%v, want ErrValueNotChanged", got, err)
+				}
+			default:
+				if err != nil || got == nil || got.Version != s.ver || string(got.Value) != s.val {
+					h.bad("got %+v err=%v, want the active version v%d %q", got, err, s.ver, s.val)
+				}
+			}
+		}
+		reqs = nil
+		h.hist = []string{fmt.Sprintf("Client.Get(%q)", name)}
+		var got *api.SecretValue
+		var err error
+		h.must(func() { got, err = c.Get(ctx, name) })
+		if len(reqs) != 1 || lastReq.Name != name || lastReq.Version != 0 || lastReq.UpdateIfChanged {
+			h.bad("Get must send one plain request for the active version; sent %v", reqs)
+		}
+		if exists && (err != nil || got == nil || got.Version != s.ver || string(got.Value) != s.val) || !exists && err != api.ErrNotFound {
+			h.bad("got %+v err=%v", got, err)
+		}
+	}
+	// file-backed client
+	file := `{"a":{"secret":{"Value":"dmFsLWE=","Version":3}},"t":{"secret":{"TextValue":"text","Version":5}},"zero":{"secret":{"Value":"eA==","Version":0}},` +
+		`"empty":{"secret":{"Value":"","Version":2}},"":{"secret":{"Value":"eA==","Version":1}},"nosecret":{"lastAccess":"5"},"nullsecret":{"secret":null},"c":{"secret":{"Value":"dmFsLWM=","Version":1},"lastAccess":"77"}}`
+	want := map[string]sv{"a": {3, "val-a"}, "t": {5, "text"}, "c": {1, "val-c"}}
+	p := filepath.Join(dir, "fileclient.json")
+	if err := os.WriteFile(p, []byte(file), 0600); err != nil {
+		t.Fatalf("write %s: %v", p, err)
+	}
+	var fc *FileClient
+	var err error
+	h.hist = []string{fmt.Sprintf("NewFileClient on a file holding %s", file)}
+	h.must(func() { fc, err = NewFileClient(p) })
+	if err != nil || fc == nil {
+		h.bad("NewFileClient failed: %v", err)
+	}
+	base := h.hist[0]
+	for _, name := range []string{"a", "t", "c", "zero", "empty", "", "nosecret", "nullsecret", "missing"} {
+		s, exists := want[name]
+		for _, old := range []api.SecretVersion{0, 1, 2, 3, 4, 5, 6} {
+			h.hist = []string{base, fmt.Sprintf("FileClient.GetIfChanged(%q, %d)", name, old)}
+			var got *api.SecretValue
+			h.must(func() { got, err = fc.GetIfChanged(ctx, name, old) })
+			switch {
+			case !exists:
+				if err != api.ErrNotFound || got != nil {
+					h.bad("got %+v err=%v, want ErrNotFound (the file has no usable value for this name)", got, err)
+				}
+			case old != 0 && old == s.ver:
+				if err != api.ErrValueNotChanged || got != nil {
+					h.bad("the held version equals the caller's: got %+v err=%v, want ErrValueNotChanged", got, err)
+				}
+			default:
+				if err != nil || got == nil || got.Version != s.ver || string(got.Value) != s.val {
+					h.bad("got %+v err=%v, want v%d %q", got, err, s.ver, s.val)
+				}
+			}
+		}
+		h.hist = []string{base, fmt.Sprintf("FileClient.Get(%q)", name)}
+		var got *api.SecretValue
+		h.must(func() { got, err = fc.Get(ctx, name) })
+		if exists && (err != nil || got == nil || got.Version != s.ver || string(got.Value) != s.val) || !exists && (err != api.ErrNotFound || got != nil) {
+			h.bad("got %+v err=%v", got, err)
+		}
+	}
+	_ = rng
+}
+
+// runBackoffDeep (only with VERIF_REPLAY_DEEP=1; it takes about 13 s of real
+// time) checks the C10 clause that the pause between retry rounds of NewStore
+// stays at "a few seconds" however long the service is unavailable.
+func runBackoffDeep(t *testing.T) {
+	h := &rHarness{t: t, clock: time.Unix(1000000, 0).UTC(), limit: 60 * time.Second}
+	h.svc = newRService(h.now)
+	h.m = map[string]*mEntry{}
+	ctx, cancel := context.WithCancel(context.Background())
+	defer cancel()
+	h.svc.cancelAt, h.svc.cancel = 15, cancel
+	h.note("the service does not have \"a\"")
+	h.note("NewStore(Secrets=[\"a\"]) with a context that is cancelled during request #15")
+	var st *Store
+	var err error
+	h.must(func() {
+		st, err = NewStore(ctx, StoreConfig{Client: h.svc, Secrets: []string{"a"}, PollInterval: -1, Logf: h.logf, TimeNow: h.now})
+	})
+	if err == nil || st != nil {
+		h.bad("NewStore succeeded although the declared secret was never available")
+	}
+	rt := h.svc.realTimes
+	for i := 1; i < len(rt); i++ {
+		h.note("pause before request #%d: %v", i+1, rt[i].Sub(rt[i-1]).Round(time.Millisecond))
+		if gap := rt[i].Sub(rt[i-1]); gap > 6*time.Second {
+			h.bad("NewStore paused %v between retry rounds; the pause must stay at a few seconds (at most about 4s)", gap.Round(time.Millisecond))
+		}
+	}
+	if len(rt) != 15 {
+		h.bad("NewStore sent %d requests, want 15 (one per round until its context ended)", len(rt))
+	}
+}
+
+// scenarioFor maps the name of the function whose contract failed to the
+// scenario that exercises it most directly ("" = no preference).
+func scenarioFor(focus string) string {
+	f := strings.ToLower(focus)
+	if i := strings.LastIndex(f, "client/setec"); i >= 0 {
+		f = f[i+len("client/setec"):]
+	}
+	if i := strings.Index(f, "$"); i >= 0 {
+		f = f[:i] // closures belong to their enclosing function
+	}
+	hasPrefix := func(ps ...string) bool {
+		for _, p := range ps {
+			if strings.HasPrefix(f, p) {
+				return true
+			}
+		}
+		return false
+	}
+	switch {
+	case f == "":
+		return ""
+	case hasPrefix(".client)", ".fileclient)", ".newfileclient") || f == ".do" || hasPrefix(".do["):
+		return "clients"
+	case hasPrefix(".fieldinfo)", ".fields)", ".parsefields", ".checkunmarshal"):
+		return "fields"
+	case f == ".store).run" || hasPrefix(".stdticker)", ".filecache)"):
+		return "poller"
+	case hasPrefix(".newstore", ".store).initializeactive", ".storeconfig)", ".store).isactivesetvalid", ".store).loadcache", ".sleepfor"):
+		return "construction"
+	case hasPrefix(".store)", ".updater", ".newupdater", ".watcher)", ".secret)", ".memcache)", ".newmemcache", ".cachedsecret)"):
+		return "history"
+	}
+	return ""
+}
+
 func TestVerifReplaySetec(t *testing.T) {
 	focus := os.Getenv("VERIF_REPLAY_FOCUS")
 	dir := t.TempDir()
-	rng := rand.New(rand.NewSource(1))
+	defer startWatchdog()()
 	w := weightsFor(focus)
-	for r := 0; r < 3000; r++ {
-		runHistory(t, rng, w, dir)
+	pref := scenarioFor(focus)
+	deep := os.Getenv("VERIF_REPLAY_DEEP") == "1"
+	scenarios := []struct {
+		name string
+		runs int
+		seed int64
+		run  func(rng *rand.Rand)
+	}{
+		{"history", 12000, 1, func(rng *rand.Rand) { runHistory(t, rng, w, dir) }},
+		{"construction", 2000, 2, func(rng *rand.Rand) { runConstruction(t, rng) }},
+		{"fields", 2000, 3, func(rng *rand.Rand) { runFields(t, rng) }},
+		{"poller", 1000, 4, func(rng *rand.Rand) { runPoller(t, rng, dir) }},
 	}
-	for r := 0; r < 600; r++ {
-		runConstruction(t, rng)
+	once := func() {
+		runPollLoopDirect(t)
+		runOverlap(t)
+		runClients(t, rand.New(rand.NewSource(5)), dir)
+		parseFieldsRejects(&rHarness{t: t})
 	}
-	for r := 0; r < 300; r++ {
-		runPoller(t, rng, dir)
+	if pref == "clients" || pref == "poller" || pref == "fields" {
+		once()
 	}
-	runPollLoopDirect(t)
-	runOverlap(t)
-	parseFieldsRejects(&rHarness{t: t})
-	for r := 0; r < 600; r++ {
-		runFields(t, rng)
+	// the focus scenario runs first and gets three times the iterations
+	for pass := 0; pass < 2; pass++ {
+		for _, sc := range scenarios {
+			if (pass == 0) != (sc.name == pref) {
+				continue
+			}
+			runs := sc.runs
+			if sc.name == pref {
+				runs *= 3
+			}
+			if deep {
+				runs *= 4
+			}
+			rng := rand.New(rand.NewSource(sc.seed))
+			for r := 0; r < runs; r++ {
+				sc.run(rng)
+			}
+		}
 	}
-	_ = http.StatusOK
-	_ = httptest.NewRecorder
-	_ = path.Join
+	if !(pref == "clients" || pref == "poller" || pref == "fields") {
+		once()
+	}
+	if deep {
+		runBackoffDeep(t)
+	}
 }
